@@ -29,7 +29,7 @@ print("NEW:", *new, sep="\n  ")
 print("CHANGED (non-shared):", *changed, sep="\n  ")
 print("CHANGED SHARED (not copied, review by hand):", *shared_changed, sep="\n  ")
 if "--apply" in sys.argv:
-    own = [r for r in changed if prop.lower() in r.lower()]
+    own = [r for r in changed if prop.lower() in r.lower() or os.path.getmtime(os.path.join(src, r)) > os.path.getmtime(os.path.join(dst, r))]
     print("changed files applied (own):", own)
     for rel in new + own:
         os.makedirs(os.path.dirname(os.path.join(dst, rel)) or ".", exist_ok=True)
